@@ -32,10 +32,11 @@ def exponentMask : Nat := 9218868437227405312
 def mantissaMask : Nat := 4503599627370495
 def leadingBit : Nat := 4503599627370496
 def maxCut : Nat := 300
-def bigIntTotalBits : Nat := 1216
-def bigIntMaxIndex : Nat := 18
+def bigIntTotalBits : Nat := 1344
+def bigIntMaxIndex : Nat := 20
 def bigIntTypeWidth : Nat := 64
 def bigIntSizeOfType : Nat := 8
+def bigIntWidthFactor : Nat := 5
 end F64
 namespace F32
 def size : Nat := 4
@@ -47,10 +48,11 @@ def exponentMask : Nat := 2139095040
 def mantissaMask : Nat := 8388607
 def leadingBit : Nat := 8388608
 def maxCut : Nat := 30
-def bigIntTotalBits : Nat := 256
-def bigIntMaxIndex : Nat := 3
+def bigIntTotalBits : Nat := 320
+def bigIntMaxIndex : Nat := 4
 def bigIntTypeWidth : Nat := 64
 def bigIntSizeOfType : Nat := 8
+def bigIntWidthFactor : Nat := 5
 end F32
 namespace S1
 def infinity : List Nat := [105, 110, 102]
